@@ -128,8 +128,14 @@ func (g *gen) inline(kind string, depth int) *Val {
 			g.kid(v, []string{"not"}, "schemas", depth, "schema.not", g.o.Tame)
 		}
 	case "parameters":
-		v.Fields["name"] = fmt.Sprintf("q%d", g.r.Intn(1000000))
+		pn := g.r.Intn(1000000)
+		v.Fields["name"] = fmt.Sprintf("q%d", pn)
 		v.Fields["in"] = "query"
+		if g.r.Intn(5) == 0 {
+			// the Go name given outright, in spellings the name normalisers rewrite (lower camel, snake case, Id / ID)
+			v.Fields["x-go-name"] = fmt.Sprintf([]string{"userID%d", "request_id_%d", "UserId%d", "Renamed%d", "oauth2Token%d"}[g.r.Intn(5)], pn)
+			g.PosCount["parameter.x-go-name"]++
+		}
 		if g.r.Intn(4) == 0 {
 			// a parameter described by content: JSON or any other media type (one entry)
 			mt := []string{"application/json", "application/json", "application/xml", "text/plain"}[g.r.Intn(4)]
